@@ -136,6 +136,7 @@ use crate::config::Config;
 use crate::stream::{TcpStream, Exch, Req, AnyItems};
 
 //@ include u6_client.tpl
+//@ include u6_props.tpl
 
 //@ tag canary
 pub proof fn zx_canary() ensures false {}
